@@ -12,12 +12,11 @@ Open Scope Z_scope.
 
 (* Headline (guarded): for EVERY accepted request r that is safe (method is a token; request-target non-empty
    without SP/CTL; Host without CR/LF; every forwarded field name a token) and well-formed (header keys in
-   canonical form as the frontends store them; body absent or Content-Length n with exactly n bytes,
-   0 < n < 10^80), the bytes written to the backend parse, with the strict reference parser, as exactly one
+   canonical form as the frontends store them; body absent, or Content-Length n with exactly n bytes,
+   0 < n < 10^80, or chunked with every chunk shorter than 16^16 bytes), the bytes written to the backend parse, with the strict reference parser, as exactly one
    request, and it is the accepted one: same method, target, Host, same forwarded fields in key order with
    sanitised values, same body; nothing follows it.  No field value whatsoever (CR, LF, NUL, ...) can add
-   fields or messages.  Chunked bodies are not covered by this proved statement (kept as C25_..._partial
-   in spirit; see props/C25.json). *)
+   fields or messages. *)
 Theorem C25_one_wellformed_request : forall r,
   safe_request r = true -> wf_wreq r = true ->
   strict_parse (write_request r) = Some (normalize r).
@@ -31,6 +30,22 @@ Theorem C25_prop_of_model : forall i r,
 Proof. exact C25_prop_of_model_lemma. Qed.
 Print Assumptions C25_prop_of_model.
 
+(* Every frontend (HTTP/1 ReadRequest, HTTP/2, SPDY models) stores header keys in canonical form, so the
+   canonical-key part of wf_wreq holds for every accepted request ... *)
+Theorem C25_frontends_canonical : forall i r,
+  accepted i = inr r -> forallb canon_ok (w_fields r) = true.
+Proof. exact frontends_canonical. Qed.
+Print Assumptions C25_frontends_canonical.
+
+(* ... hence: for every input on every frontend whose accepted request is safe and whose body is absent,
+   Content-Length framed (0 < n < 10^80, n bytes) or chunked (chunks < 16^16 bytes), the property holds
+   of the modelled output. *)
+Theorem C25_prop_of_model_strong : forall i r,
+  accepted i = inr r -> safe_request r = true -> body_ok (w_body r) = true ->
+  prop_C25 i (run_C25 i) = true.
+Proof. exact C25_prop_of_model_strong_lemma. Qed.
+Print Assumptions C25_prop_of_model_strong.
+
 (* The frontends do NOT establish safe_request: one accepted-and-written witness per class
    (frontend*10 + component; 1 method, 2 target, 3 host, 4 field name).  HTTP/1: method "G(T", Host with a
    bare CR, name "X A".  HTTP/2: :method "GET /x", :path "/a b".  SPDY: CR LF in :method, SP in :path,
@@ -43,6 +58,6 @@ Print Assumptions C25_frontend_establishes_safe_refuted.
 
 (* Non-vacuity: per frontend a safe, well-formed accepted request (HTTP/1 POST with a 3-byte body and a
    value containing a bare CR; HTTP/2 with two cookies and an HTAB value; SPDY with a NUL-separated value
-   containing CR LF "Evil: 1") for which the written bytes satisfy the property. *)
-Example C25_nonvacuous : nonvac ok1 /\ nonvac ok2 /\ nonvac ok3.
+   containing CR LF "Evil: 1"; HTTP/1 chunked POST with two chunks and a trailer) for which the written bytes satisfy the property. *)
+Example C25_nonvacuous : nonvac ok1 /\ nonvac ok2 /\ nonvac ok3 /\ nonvac ok4.
 Proof. exact C25_nonvacuous_lemma. Qed.
